@@ -13,13 +13,16 @@ NEED = ('query-CHECK', 'query-LOGIN', 'query-MORE', 'password-malformed', 'chall
 def plan(tier):
     S = pcommon.S
     if tier == 'quick':
-        return [S('solo/hurry/login+drone/t30', 'login+drone', 30, [1], alpha.scen_hurry([1])),     # several password forms of different length per instance
+        return [pcommon.reload_search(tier, 'slot'),      # a service that arrives by reload while the client waits must be asked, too
+                S('solo/hurry/login+drone/t30', 'login+drone', 30, [1], alpha.scen_hurry([1])),     # several password forms of different length per instance
                 S('solo/orders/login+drone/t30', 'login+drone', 30, [1], alpha.scen_orders([1])),
                 S('solo/orders/ipr+comb/t0', 'ipr+comb', 0, [1], alpha.scen_orders([1], passwords=('x', 'nopass'), pbudget=2), maxstates=6000)]
     p = []
     for g in ('login+drone', 'ipr+comb', 'login', 'ipr', 'drone', 'comb', 'all4'):
         p.append(S('solo/orders/%s/t30' % g, g, 30, [1], alpha.scen_orders([1], passwords=('x', 'nopass', 'onlyacct'), pbudget=2)))
     p.append(S('solo/hurry/ipr+comb/t30', 'ipr+comb', 30, [1], alpha.scen_hurry([1])))
+    p.append(pcommon.reload_search(tier, 'slot'))
+    p.append(pcommon.reload_search(tier, 'three'))
     return p
 
 # ---- contents ---------------------------------------------------------------------------------------
